@@ -4,7 +4,7 @@ Oracle: Python integer arithmetic, sum(a[i+j] << (b*j)).  All observations of on
 made on the *same* packed object, in a case-given order, and unpack() is re-checked at the
 end, so state left behind by one observer shows up in the next."""
 import numpy as np
-from ..core import CTX, attempt, held, violated, short
+from ..core import CTX, attempt, held, violated, short, scribble
 
 PROP = "C13"
 RULE = ("case = (bits b, length, input dtype, values, window w, positions, order of observations); systematic sweep over "
@@ -45,9 +45,10 @@ def run(case):
 
     def obs_u():
         CTX.tick("c13:unpack")
-        o = attempt(lambda: np.asarray(ba.unpack()).tolist())
-        if not o.ok or o.value != vals:
+        o = attempt(lambda: ba.unpack())
+        if not o.ok or np.asarray(o.value).tolist() != vals:
             return "unpack() gives %s" % (repr(o) if not o.ok else short(o.value, 160))
+        scribble(o.value)      # the unpacked array belongs to the caller
 
     def obs_i():
         for q in pos[:4]:
@@ -71,7 +72,11 @@ def run(case):
 
     def obs_w():
         CTX.tick("c13:window", w > 1)
-        o = attempt(lambda: [int(x) for x in np.asarray(ba.sliding_window(w)).tolist()])
+        o = attempt(lambda: ba.sliding_window(w))
+        if o.ok:
+            wv = [int(x) for x in np.asarray(o.value).tolist()]
+            scribble(o.value)
+            o.value = wv
         if not o.ok or o.value != exp_win:
             bad = ""
             if o.ok and len(o.value) == len(exp_win):
